@@ -24,6 +24,10 @@ type Case struct {
 	WC        bool
 	Sub       vm.SliceSpec // applySlice: block of the destination
 	K         int          // scale factor / added constant
+	ALoc      []int        `json:",omitempty"` // Apply: start index, dimension, step and number of values written along it
+	ADim      int          `json:",omitempty"`
+	AStep     int          `json:",omitempty"`
+	AN        int          `json:",omitempty"`
 	NoPoke    bool         `json:",omitempty"` // skip the write through Unroll() (lock-step comparisons: C views unroll to copies by design)
 	Guard     int          `json:",omitempty"` // guard-page placement for C roots (see arr.NewRoot)
 }
@@ -44,7 +48,7 @@ func Gen(t *rapid.T) Case {
 	}
 	c.FastShape = vg.Factor(t, size, "fs")
 	c.PokeAt = rapid.IntRange(0, size-1).Draw(t, "poke")
-	ops := []string{"copyFrom", "applySlice", "none"}
+	ops := []string{"copyFrom", "applySlice", "apply", "apply", "none"}
 	if c.Typ != "int" && c.Typ != "uint" {
 		ops = append(ops, "scale", "addTo", "applyFunc", "scale", "addTo", "applyFunc")
 	}
@@ -62,6 +66,19 @@ func Gen(t *rapid.T) Case {
 			root, sp := vm.DrawSliceOfShape(t, shape, "dstblock")
 			c.W = vg.ViewSpec{Root: root, Class: "whole"}
 			c.Sub = sp
+		}
+	case "apply":
+		c.VIsDest = true
+		c.ADim = rapid.IntRange(0, len(shape)-1).Draw(t, "adim")
+		c.AStep = rapid.IntRange(1, 3).Draw(t, "astep")
+		c.ALoc = make([]int, len(shape))
+		for d := range shape {
+			c.ALoc[d] = rapid.IntRange(0, shape[d]-1).Draw(t, "aloc")
+		}
+		room := (shape[c.ADim]-1-c.ALoc[c.ADim])/c.AStep + 1
+		c.AN = rapid.IntRange(1, room).Draw(t, "an")
+		if rapid.Bool().Draw(t, "afull") {
+			c.AN = room
 		}
 	case "none":
 	default:
@@ -313,6 +330,32 @@ func Exec(c Case, trace *[]string) (r pbt.Result) {
 
 	// --- binary operation ---------------------------------------------------
 	if c.Op == "none" {
+		return
+	}
+	if c.Op == "apply" {
+		vals := make([]float64, c.AN)
+		idx := append([]int(nil), c.ALoc...)
+		for k := range vals {
+			vals[k] = val(c.Typ, 9000+k)
+			idx[c.ADim] = c.ALoc[c.ADim] + k*c.AStep
+			mv.Set(idx, vals[k])
+		}
+		loc := append([]int(nil), c.ALoc...)
+		if p := guarded(func() { rv.Apply(loc, c.ADim, c.AStep, vals) }); p != "" {
+			r.Failf("Apply(%v, dim %d, step %d, %d values) on a %s %s view panicked: %s", c.ALoc, c.ADim, c.AStep, c.AN, contigClass(mv), backend(c.C), p)
+			return
+		}
+		r.Label("apply:target-" + contigClass(mv))
+		if c.AStep > 1 {
+			r.Label("apply:step>1")
+		}
+		tr("after apply: storage=%v view=%v", rootV.Storage(), rv.Unroll())
+		if !storageOK(fmt.Sprintf("Apply(%v, dim %d, step %d, %d values) on a %s %s view", c.ALoc, c.ADim, c.AStep, c.AN, contigClass(mv), backend(c.C))) {
+			return
+		}
+		if i := eq(rv.Unroll(), mv.Values()); i != -1 {
+			r.Failf("Apply on a %s view: element %d = %v, element-wise definition gives %v", contigClass(mv), i, rv.Unroll()[i], mv.Values()[i])
+		}
 		return
 	}
 	initW := initVals(c.Typ, vm.Product(c.W.Root), 5000)
